@@ -25,6 +25,7 @@ RULE = ("operation sequences (length <= 8 quick / 12 thorough) of {set inputs, p
         "(original and all copies) is observed after each of its process steps and once more at the end. non-trivial: the "
         "sequence contains a copy or a restart followed by a process that yields a finite value; distinct = distinct "
         "(engine, sequence)")
+RULE += (" Every restart of a sequence is run by the driver as Op.Session.restartR (command restart-r of session-r): all rules load -> returns; a rule naming an unknown term -> raises with the inputs NaN and the outputs kept.")
 ASSUMPTIONS = ["values compared within 1e-7 with the fragile-point filter of C01 for the model; implementation-vs-fresh-"
                "implementation comparisons within 1e-12",
                "aliasing can only be observed, not modelled: the model's copies are independent by construction"]
